@@ -20,6 +20,15 @@ pub struct GenericLightDataset<TI: TermIndex> {
     quads: BTreeSet<[TI::Index; 4]>,
 }
 
+/// Verification hook: read-only access to the term index.
+#[cfg(feature = "sophia_verif")]
+impl<TI: TermIndex> GenericLightDataset<TI> {
+    /// The term index of this store.
+    pub fn verif_index(&self) -> &TI {
+        &self.terms
+    }
+}
+
 impl<TI: GraphNameIndex + Default> GenericLightDataset<TI> {
     /// Construct an empty dataset
     pub fn new() -> Self {
@@ -207,6 +216,15 @@ pub struct GenericFastDataset<TI: GraphNameIndex> {
     spog: BTreeSet<[TI::Index; 4]>,
     posg: BTreeSet<[TI::Index; 4]>,
     ospg: BTreeSet<[TI::Index; 4]>,
+}
+
+/// Verification hook: read-only access to the term index.
+#[cfg(feature = "sophia_verif")]
+impl<TI: GraphNameIndex> GenericFastDataset<TI> {
+    /// The term index of this store.
+    pub fn verif_index(&self) -> &TI {
+        &self.terms
+    }
 }
 
 impl<TI: GraphNameIndex + Default> GenericFastDataset<TI> {
